@@ -32,11 +32,23 @@ def kind? : Sexp → Option IterKind
   | .atom "list" => some .list
   | .atom "tuple" => some .tuple
   | .atom "iterator" => some .iterator
+  | .atom "reiter" => some .reiter
   | .atom "nonIter" => some .nonIter
   | _ => none
 
 def src? : Sexp → Option (Src Nat)
   | .list [.atom "src", k, items] => do some { kind := (← kind? k), items := (← items.natList?) }
+  | _ => none
+
+/-- the key / predicate argument: `none` or `(fn <bool(f)> <f == None>)` -/
+def fnObj? : Sexp → Option FnObj
+  | .atom "none" => some .none
+  | .list [.atom "fn", t, e] => do some (.fn (← t.bool?) (← e.bool?))
+  | _ => none
+
+def bodyKind? : Sexp → Option BodyKind
+  | .atom "lazy" => some .lazy
+  | .atom "eager" => some .eager
   | _ => none
 
 def attempt? : Sexp → Option Attempt
@@ -46,16 +58,16 @@ def attempt? : Sexp → Option Attempt
 
 def call? : Sexp → Option (Call Nat)
   | .list [.atom "call", .atom "amap", s] => (src? s).map .amap
-  | .list [.atom "call", .atom "afilter", n, s] => do some (.afilter (← n.bool?) (← src? s))
+  | .list [.atom "call", .atom "afilter", n, s] => do some (.afilter (← fnObj? n) (← src? s))
   | .list [.atom "call", .atom "afilterfalse", s] => (src? s).map .afilterfalse
-  | .list [.atom "call", .atom "asorted", kn, rev, s] => do some (.asorted (← kn.bool?) (← rev.bool?) (← src? s))
+  | .list [.atom "call", .atom "asorted", kn, rev, s] => do some (.asorted (← fnObj? kn) (← rev.bool?) (← src? s))
   | .list [.atom "call", .atom "amaxmin", isMin, badKw, kn, .list [.atom "one", s]] => do
-    some (.amaxmin (← isMin.bool?) (← badKw.bool?) (← kn.bool?) (.one (← src? s)))
+    some (.amaxmin (← isMin.bool?) (← badKw.bool?) (← fnObj? kn) (.one (← src? s)))
   | .list [.atom "call", .atom "amaxmin", isMin, badKw, kn, .list [.atom "elems", xs]] => do
-    some (.amaxmin (← isMin.bool?) (← badKw.bool?) (← kn.bool?) (.elems (← xs.natList?)))
+    some (.amaxmin (← isMin.bool?) (← badKw.bool?) (← fnObj? kn) (.elems (← xs.natList?)))
   | .list [.atom "call", .atom "asift", s] => (src? s).map .asift
-  | .list [.atom "call", .atom "aretry", m, l, .list (.atom "script" :: sc), b] => do
-    some (.aretry (← m.nat?) (← l.natList?) (← sc.mapM attempt?) (← b.bool?))
+  | .list [.atom "call", .atom "aretry", m, l, .list (.atom "script" :: sc), b, k] => do
+    some (.aretry (← m.nat?) (← l.natList?) (← sc.mapM attempt?) (← b.bool?) (← bodyKind? k))
   | _ => none
 
 def intList? : Sexp → Option (List Int)
